@@ -172,7 +172,7 @@ pub trait Prop: Sync {
 // panic capture (lock-free: thread-local only)
 
 thread_local! {
-    static LAST_PANIC: RefCell<Option<(String, String)>> = const { RefCell::new(None) };
+    static LAST_PANIC: RefCell<Vec<(String, String)>> = const { RefCell::new(Vec::new()) };
     static QUIET: RefCell<bool> = const { RefCell::new(false) };
 }
 
@@ -192,21 +192,33 @@ pub fn install_panic_hook() {
         } else {
             "<non-string panic payload>".into()
         };
-        LAST_PANIC.with(|p| *p.borrow_mut() = Some((loc, msg)));
+        LAST_PANIC.with(|p| {
+            let mut v = p.borrow_mut();
+            if v.len() < 8 {
+                v.push((loc, msg));
+            }
+        });
     }));
 }
 
 /// Runs `f` with panics captured; a panic becomes a `Failure` whose signature is the panic location.
 pub fn guarded<F: FnOnce() -> CheckResult>(f: F) -> CheckResult {
     QUIET.with(|q| *q.borrow_mut() = true);
+    LAST_PANIC.with(|p| p.borrow_mut().clear());
     let r = panic::catch_unwind(AssertUnwindSafe(f));
     QUIET.with(|q| *q.borrow_mut() = false);
     match r {
         Ok(r) => r,
         Err(_) => {
-            let (loc, msg) = LAST_PANIC.with(|p| p.borrow_mut().take()).unwrap_or(("?".into(), "?".into()));
+            // the first panic is the cause; later ones (e.g. a scheduler re-raising it) are appended
+            let all = LAST_PANIC.with(|p| std::mem::take(&mut *p.borrow_mut()));
+            let (loc, msg) = all.first().cloned().unwrap_or(("?".into(), "?".into()));
             let short = loc.rsplit('/').next().unwrap_or(&loc).to_string();
-            Err(Failure::new(format!("panic@{}", short), format!("panic at {}: {}", loc, msg)))
+            let mut text = format!("panic at {}: {}", loc, msg);
+            for (l, m) in all.iter().skip(1) {
+                text.push_str(&format!("\n  then panic at {}: {}", l, m));
+            }
+            Err(Failure::new(format!("panic@{}", short), text))
         }
     }
 }
